@@ -53,7 +53,7 @@ def eval_case(case, rng):
     elif mform.startswith("pairs"):
         k = rng.randrange(1, 5)
         srcs = rng.sample(PORTS, k)
-        mapargs = [f"{a}:{rng.choice([a, a, 8080, 80, 1, 65535, 443, 44330, rng.choice(PORTS), rng.randrange(1, 65536)])}" for a in srcs]     # incl. identity pairs a:a
+        mapargs = [f"{a}:{rng.choice([a, a, 8080, 80, 1, 65535, 443, 44330, rng.choice(PORTS), tcpcap.map_target(rng)])}" for a in srcs]     # incl. identity pairs a:a
         shown = [m + "," if (mform == "pairs-commas" and j < len(mapargs) - 1) else m for j, m in enumerate(mapargs)]
         extra += ["-m"] + shown
     if rng.random() < 0.5:       # option order must not matter
